@@ -1283,13 +1283,44 @@ func ruleErrorsReturned(c *Ctx, fns []*ssa.Function) {
 					continue
 				}
 				bad := ""
+				// a branch taken because the error is of a particular, expected kind (errors.Is(err, os.ErrNotExist),
+				// os.IsNotExist(err): "the directory is not there yet") is a decision about that kind, not a dropped error: what
+				// lies behind it is not "after the call failed, unnoticed"
+				kindEdges := map[[2]*ssa.BasicBlock]string{}
+				for _, ev := range errVals {
+					if ev.Referrers() == nil {
+						continue
+					}
+					for _, r := range *ev.Referrers() {
+						kc, isCall := r.(*ssa.Call)
+						if !isCall {
+							continue
+						}
+						kcallee := kc.Call.StaticCallee()
+						if kcallee == nil {
+							continue
+						}
+						full := pkgPathOf(kcallee) + "." + kcallee.Name()
+						if full != "errors.Is" && full != "os.IsNotExist" && full != "os.IsExist" && full != "errors.As" {
+							continue
+						}
+						if kc.Referrers() == nil {
+							continue
+						}
+						for _, kr := range *kc.Referrers() {
+							if kif, isIf := kr.(*ssa.If); isIf {
+								kindEdges[[2]*ssa.BasicBlock{kif.Block(), kif.Block().Succs[0]}] = full
+							}
+						}
+					}
+				}
 				for i, ifi := range ifs {
 					fail := ifi.Block().Succs[1]
 					if polarity[i] {
 						fail = ifi.Block().Succs[0]
 					}
 					// the failure side must not reach a success return (without re-entering through the branch itself)
-					if reach := reachable(fail, ifi.Block()); len(success) > 0 {
+					if reach := reachableAvoiding(fail, ifi.Block(), kindEdges); len(success) > 0 {
 						for _, s := range success {
 							if reach[s] {
 								bad = "after " + name + " failed, execution can still reach a `return ..., nil`"
